@@ -209,7 +209,22 @@ func (dl *dialLimiter) AddDialJob(dj *dialJob) {
 func (dl *dialLimiter) clearAllPeerDials(p peer.ID) {
 	dl.lk.Lock()
 	defer dl.lk.Unlock()
-	delete(dl.waitingOnPeerLimit, p)
+	// Only drop the jobs of the worker that is going away (they are cancelled
+	// by now). A new worker for the same peer may already have queued its own
+	// jobs here; dropping those would leave it waiting for dials that never run.
+	waitlist := dl.waitingOnPeerLimit[p]
+	kept := waitlist[:0]
+	for _, j := range waitlist {
+		if !j.cancelled() {
+			kept = append(kept, j)
+		}
+	}
+	clear(waitlist[len(kept):]) // clear out memory
+	if len(kept) == 0 {
+		delete(dl.waitingOnPeerLimit, p)
+	} else {
+		dl.waitingOnPeerLimit[p] = kept
+	}
 	log.Debug("[limiter] clearing all peer dials", "peer", p)
 	// NB: the waitingOnFd list doesn't need to be cleaned out here, we will
 	// remove them as we encounter them because they are 'cancelled' at this
